@@ -24,14 +24,82 @@ theorem unified_range_roundtrip (h : Hunk) (h0 : Hunk)
     = (true, { h0 with old := h.old, new := h.new }) := by
   exact Unified.unified_range_roundtrip h h0 hos hoc hns hnc hob hocb hnb hncb
 
-/-- **unified round trip**: any list of writable hunks, written by `write_hunk_as_unified` and followed by anything that
-    is not itself a hunk, is read back by `parse_unified_patch` as the same hunks (LF/CRLF class forgotten), and the
-    stream is left exactly at what followed. -/
+/-- **unified round trip, exact**: any list of writable hunks, written by `write_hunk_as_unified` and followed by anything
+    that is not itself a hunk, is read back by `parse_unified_patch` as those very hunks — operations, contents, ranges
+    and the terminator class (LF, CR LF, none) of every line —, and the stream is left exactly at what followed.
+
+    (Up to the fix "a line that came with CR LF is written with CR LF" the writer ended every line with LF and the hunks
+    came back as `hs.map Hunk.normNl`, the LF/CRLF class forgotten; that statement is false now for hunks with CR LF lines
+    — they come back as they are — and is kept in its true form as `unified_roundtrip_normNl`.
+    `Hunk.writable` asks of every line that its content has no LF and does not end in CR — the invariant of the reader
+    (C14 `splitLines_lf_noCR`) —, and that a missing newline is only said of the last line of a side.) -/
 theorem unified_roundtrip (hs : List Hunk) (hne : hs ≠ []) (hw : ∀ h ∈ hs, h.writable = true)
     (tail : List Line) (ht : tailOkUnified tail = true) (lineNo : Nat) :
     ∃ par', parseUnifiedBody { s := { rest := splitLines (hs.flatMap writeHunkUnified) ++ tail }, lineNo := lineNo }
-        = .ok (hs.map Hunk.normNl, par') ∧ par'.s.rest = tail := by
+        = .ok (hs, par') ∧ par'.s.rest = tail := by
   exact Unified.unified_roundtrip hs hne hw tail ht lineNo
+
+/-- the round trip with the LF/CRLF class forgotten (the statement of `unified_roundtrip` before the writer kept CR LF):
+    a corollary of the exact one -/
+theorem unified_roundtrip_normNl (hs : List Hunk) (hne : hs ≠ []) (hw : ∀ h ∈ hs, h.writable = true)
+    (tail : List Line) (ht : tailOkUnified tail = true) (lineNo : Nat) :
+    ∃ hs' par', parseUnifiedBody { s := { rest := splitLines (hs.flatMap writeHunkUnified) ++ tail }, lineNo := lineNo }
+        = .ok (hs', par') ∧ hs'.map Hunk.normNl = hs.map Hunk.normNl ∧ par'.s.rest = tail := by
+  exact Unified.unified_roundtrip_normNl hs hne hw tail ht lineNo
+
+/-- a hunk with one CR LF terminated context line -/
+def crlfHunk : Hunk := ⟨⟨1, 1⟩, ⟨1, 1⟩, [⟨SP, ⟨[97], .crlf⟩⟩]⟩
+
+/-- the statement of `unified_roundtrip` before the fix (the hunks come back as `hs.map Hunk.normNl`) is false now:
+    a hunk with a CR LF line comes back with its CR LF line -/
+theorem unified_roundtrip_normNl_form_false :
+    ¬ ∀ (hs : List Hunk), hs ≠ [] → (∀ h ∈ hs, h.writable = true) →
+      ∀ (tail : List Line), tailOkUnified tail = true → ∀ (lineNo : Nat),
+      ∃ par', parseUnifiedBody { s := { rest := splitLines (hs.flatMap writeHunkUnified) ++ tail }, lineNo := lineNo }
+        = .ok (hs.map Hunk.normNl, par') ∧ par'.s.rest = tail := by
+  intro hold
+  have hw : ∀ h ∈ [crlfHunk], h.writable = true := by
+    intro h hh
+    simp only [List.mem_singleton] at hh
+    subst hh
+    decide
+  obtain ⟨p1, h1, _⟩ := hold [crlfHunk] (by simp) hw [] rfl 1
+  obtain ⟨p2, h2, _⟩ := unified_roundtrip [crlfHunk] (by simp) hw [] rfl 1
+  rw [h2] at h1
+  simp only [Except.ok.injEq, Prod.mk.injEq] at h1
+  exact absurd h1.1 (by decide)
+/-- the text of emitted hunks, line by line: the range line, then every hunk line with the terminator it came with
+    (`Unified.wireNl`: CR LF for a `.crlf` line, LF otherwise), a line without newline followed by the marker line -/
+theorem unified_text_lines (hs : List Hunk) (hw : ∀ h ∈ hs, h.writable = true) :
+    splitLines (hs.flatMap writeHunkUnified) = hs.flatMap Unified.hunkLines := by
+  exact Unified.splitLines_hunks hs (fun h hh => (Unified.writable_spec h (hw h hh)).1)
+    (fun h hh => (Unified.writable_spec h (hw h hh)).2.2.2.2.1)
+
+/-- in that text the line after a hunk line is a `\` line exactly when the hunk line lacks its newline
+    (`rest`: the hunk lines that follow, `after`: what follows the hunk — a range line or the tail) -/
+theorem marker_follows_iff_none (pl : PatchLine) (rest : List PatchLine) (after : List Line)
+    (hops : ∀ x ∈ rest, x.op = SP ∨ x.op = PLUS ∨ x.op = MINUS) (hafter : Unified.AfterOK after) :
+    (∃ l, (Unified.bodyLines (pl :: rest) ++ after)[1]? = some l ∧ l.content.head? = some BACKSLASH) ↔
+      pl.line.newline = .none := by
+  exact Unified.marker_follows_iff_none pl rest after hops hafter
+
+/-- **only the marker makes a hunk line end without newline**: whatever the text is — the last line of a patch whose own
+    final newline went missing included —, if none of its lines begins with a backslash then no line of the hunks
+    `parse_unified_patch` reads from it has `newline = .none`.  (Before the fix the last line of such a text was taken
+    for a line without newline.) -/
+theorem none_only_by_marker (par : Parser) (hs : List Hunk) (par' : Parser)
+    (h : parseUnifiedBody par = .ok (hs, par'))
+    (hnb : ∀ l ∈ par.s.rest, l.content.head? ≠ some BACKSLASH) :
+    ∀ hk ∈ hs, ∀ pl ∈ hk.lines, pl.line.newline ≠ .none := by
+  exact Unified.parseUnifiedBody_noNone par hs par' h hnb
+
+/-- **the final newline of the patch text does not matter**: `parse_unified_patch` reads the same hunks (or fails in the same
+    way) from a text and from that text without the newline of its last line (`c`: the content of the last line, `ls`: the
+    lines before it).  (Before the fix the last line of such a text came back as a line without newline.) -/
+theorem unified_final_newline_irrelevant (ls : List Line) (c : Bytes) (n : Nat) (hls : ∀ l ∈ ls, l.newline ≠ .none) :
+    (parseUnifiedBody ⟨⟨ls ++ [⟨c, .none⟩], false, false⟩, n⟩).map (·.1)
+      = (parseUnifiedBody ⟨⟨ls ++ [⟨c, .lf⟩], false, false⟩, n⟩).map (·.1) := by
+  exact Unified.parseUnifiedBody_final_newline ls c n hls
 
 /-- the reject writer's format choice: unified when asked for, or by default for unified and git input; context otherwise -/
 theorem reject_format_choice (fmt : RejectFormat) (pf : Format) :
